@@ -11,8 +11,12 @@ import sys
 
 from hypothesis import strategies as st
 
+import time as _time
+
 from hv import vloop
 from hv.core import Outcome
+
+_REAL_SLEEP = _time.sleep
 
 PID = "C14"
 LEVEL = "exploration"
@@ -30,7 +34,7 @@ LEVEL_TEXT = (
     "limit<=3 in the thorough tier, limit=4 with canonical suffixes; quick samples it."
 )
 LEVEL_NOTE = (
-    "Trusted: pauses are observed by rebinding haiway.helpers.retries.sleep_sync / sleep (module-level names) and by "
+    "Trusted: pauses are observed by rebinding (by identity) the names bound to time.sleep / asyncio.sleep in haiway.helpers.retries plus time.sleep itself, and by "
     "virtual-clock deltas on the async path; if the names disappear only the clock deltas are used."
 )
 ASSUMPTIONS = [
@@ -262,15 +266,20 @@ def run_case(case) -> Outcome:
 
     pauses: list = []
     result: dict = {}
+    wall = {"dt": 0.0}
     if case["variant"] == "sync":
 
         def fn(*a, **kw):
             return behave(a, kw)
 
         wrapped = decorate(fn)
-        saved = getattr(R, "sleep_sync", None)
-        if saved is not None:
-            R.sleep_sync = lambda s: pauses.append(s)
+        # the blocking sleep is observed (and not slept): every name in the retries module that is bound to time.sleep
+        # is rebound by identity, and time.sleep itself for a library that spells it `time.sleep(...)`
+        record = lambda s: pauses.append(s)  # noqa: E731
+        rebound = [(R, a, v) for a, v in list(vars(R).items()) if v is _REAL_SLEEP]
+        for m_, a_, _v in rebound:
+            setattr(m_, a_, record)
+        _time.sleep = record
         try:
             if case.get("warm"):
                 try:
@@ -278,14 +287,22 @@ def run_case(case) -> Outcome:
                 except Exception:  # noqa: BLE001 - the warm-up call's own outcome
                     pass
                 end_warm_up()
+            t_wall = _time.perf_counter()
             try:
                 result["v"] = ("ret", wrapped(*args, **kwargs))
             except BaseException as exc:  # noqa: BLE001 - outcome under observation
                 result["v"] = ("exc", exc)
+            wall["dt"] = _time.perf_counter() - t_wall
         finally:
-            if saved is not None:
-                R.sleep_sync = saved
-        observed_pauses = pauses if saved is not None else None
+            _time.sleep = _REAL_SLEEP
+            for m_, a_, v_ in rebound:
+                setattr(m_, a_, v_)
+        # nothing bound to time.sleep in the module and nothing recorded: the library pauses in some other way - not observed
+        observed_pauses = pauses if (rebound or pauses) else None
+        if not pauses and wall["dt"] >= 0.2:
+            # nothing recorded, yet the call really took time: the library pauses through something else than time.sleep -
+            # unobserved (the wall clock is only ever used to EXCUSE, never to accuse; recorded pauses cost no real time)
+            observed_pauses = None
         gaps = None
     else:
 
@@ -293,7 +310,8 @@ def run_case(case) -> Outcome:
             return behave(a, kw)
 
         wrapped = decorate(fn)
-        saved = getattr(R, "sleep", None)
+        a_rebound = [(a_, v_) for a_, v_ in list(vars(R).items()) if v_ is asyncio.sleep]
+        saved = asyncio.sleep if a_rebound else None
 
         async def main(loop):
             clock["now"] = loop.time
@@ -303,7 +321,8 @@ def run_case(case) -> Outcome:
                     pauses.append(s)
                     return await saved(s, *a, **k)
 
-                R.sleep = rec_sleep
+                for a_, _v in a_rebound:
+                    setattr(R, a_, rec_sleep)
             try:
                 if case.get("warm"):
                     try:
@@ -322,8 +341,8 @@ def run_case(case) -> Outcome:
                 except BaseException as exc:  # noqa: BLE001
                     return ("exc", exc)
             finally:
-                if saved is not None:
-                    R.sleep = saved
+                for a_, v_ in a_rebound:
+                    setattr(R, a_, v_)
 
         res = vloop.run(main)
         if res.outcome == "hang":
@@ -332,7 +351,8 @@ def run_case(case) -> Outcome:
         if res.outcome == "raise":
             raise res.value
         result["v"] = res.value
-        observed_pauses = pauses if saved is not None else None
+        # a binding that exists but is not the one the library calls records nothing: then the virtual-time gaps decide alone
+        observed_pauses = pauses if (saved is not None and pauses) else None
         gaps = [calls[i + 1][2] - calls[i][2] for i in range(len(calls) - 1)]
 
     exp_calls, term = model(case)
